@@ -47,7 +47,33 @@ def to_type(T):
         obj = cls(componentType=to_type(T['elem']))
     else:
         raise ValueError(k)
-    return apply_tags(obj, T)
+    return apply_constraints(apply_tags(obj, T), T)
+
+
+def apply_constraints(obj, T, skip=False):
+    """subtype constraints of the universe types: 'range' (lo, hi) on integers, 'size' (lo, hi) on strings and
+    collections, 'present' [names] on records (WITH COMPONENTS { name PRESENT })"""
+    from pyasn1.type import constraint
+    if T.get('unconstrained'):
+        return obj
+    if 'range' in T:
+        obj = obj.subtype(subtypeSpec=constraint.ValueRangeConstraint(*T['range']))
+    if 'size' in T:
+        obj = obj.subtype(subtypeSpec=constraint.ValueSizeConstraint(*T['size']))
+    if 'present' in T:
+        obj = obj.subtype(subtypeSpec=constraint.WithComponentsConstraint(
+            *[(n, constraint.ComponentPresentConstraint()) for n in T['present']]))
+    return obj
+
+
+def strip_constraints(T):
+    """the unconstrained twin of a universe type (same tags and structure)"""
+    t = {k: v for k, v in T.items() if k not in ('range', 'size', 'present', 'violating')}
+    if 'fields' in t:
+        t['fields'] = [(n, strip_constraints(ft), m) for n, ft, m in t['fields']]
+    if 'elem' in t:
+        t['elem'] = strip_constraints(t['elem'])
+    return t
 
 
 def scalar_arg(T, v):
